@@ -174,10 +174,12 @@ def write_evidence(pid, tier, seed, records, info, wall, n_viol, known, undecide
         if r["name"] in seen:
             continue
         seen.add(r["name"])
-        samples.append({"obligation": r["name"], "backend": r["backend"], "status": r["status"],
+        samples.append({"obligation": r["name"], "backend": r["backend"], "status": r["status"], "kind": r.get("kind", "property"),
                         "clauses": (r.get("asserts") or r.get("clauses") or [])[:12]})
     proved_backends = ("kani_harness_complete", "kani_contract", "verus")
-    obligations = len(records)
+    # known findings are reported separately (KNOWN-FINDING lines, coverage.known_findings_matched) and are not counted as obligations
+    # of the proof claim; bounded stand-ins are never counted as proved
+    obligations = sum(1 for r in records if r["status"] != "known_finding" and r["backend"] in proved_backends)
     discharged = sum(1 for r in records if r["status"] == "discharged" and r["backend"] in proved_backends)
     bounded = sum(1 for r in records if r["backend"] == "kani_bounded")
     ev = {
@@ -185,7 +187,9 @@ def write_evidence(pid, tier, seed, records, info, wall, n_viol, known, undecide
         "coverage": {
             "obligations": obligations, "discharged": discharged,
             "checker_cmd": " ; ".join(info["checker_cmds"]) or "none",
-            "trusted_base": m.get("trusted_base", []) + meta.COMMON_TRUSTED,
+            "trusted_base": m.get("trusted_base", []) + meta.COMMON_TRUSTED + sorted(set(info.get("unit_trusted", []))),
+            "kinds": {k: sum(1 for r in records if r.get("kind", "property") == k) for k in sorted({r.get("kind", "property") for r in records})},
+            "memoised_kani_verdicts": sum(1 for r in records if r.get("_r", {}).get("cached")),
             "bounded_standins_not_counted_as_proved": bounded,
             "by_backend": by_backend,
             "solver_checks_total": sum(r.get("solver_checks", 0) for r in records),
@@ -202,7 +206,7 @@ def write_evidence(pid, tier, seed, records, info, wall, n_viol, known, undecide
             "repo_head": git_head(REPO), "repo_uncommitted": repo_dirty_summary(), "verif_head": git_head(VERIF),
             "explanation": m.get("explanation", ""),
         },
-        "assumptions": m.get("assumptions", []) + meta.COMMON_ASSUMPTIONS + info.get("assumption_scan", []),
+        "assumptions": m.get("assumptions", []) + meta.COMMON_ASSUMPTIONS + sorted(set(info.get("unit_assumptions", []))) + info.get("assumption_scan", []),
         "wall_s": round(wall, 1),
         "violations": n_viol,
     }
